@@ -32,6 +32,7 @@ from xfrm import Xfrm, Mode
 from message import TrafficSelector, Proposal, Transform
 from ikesa import ChildSa, Keyring
 import configuration
+import ikesacontroller
 
 EXE = sys.argv[1]
 TS = TrafficSelector
@@ -433,7 +434,7 @@ def cur_kv(pfx, b=0, p=0, a=0, u=0):
     return {pfx + 'bytes': b, pfx + 'packets': p, pfx + 'add_time': a, pfx + 'use_time': u}
 
 
-def event(kind, kv, sem_fn):
+def event(kind, kv, sem_fn, ctl_fn=None, variant=None):
     data = ENC.ask(kind, kv)
     LOG.items = []
     rec = {'kind': kind, 'kv': kv, 'hex': data.hex()}
@@ -451,6 +452,9 @@ def event(kind, kv, sem_fn):
             rec['sem'] = sem_fn(header, payload, attributes)
         except Exception as e:
             rec['sem_error'] = f'{type(e).__name__}: {e}'
+        if ctl_fn is not None:
+            rec['ctl_variant'] = variant
+            rec['ctl'] = ctl_fn(header, payload, attributes, kv)
     except Exception as e:
         rec['error'] = f'{type(e).__name__}: {e}'
     rec['log'] = list(LOG.items)
@@ -466,6 +470,84 @@ def sem_acquire(header, msg, attributes):
             'sel_family': int(sel_family), 'sel_saddr': str(msg.sel.saddr.to_ipaddr(sel_family)),
             'sel_daddr': str(msg.sel.daddr.to_ipaddr(sel_family)), 'sport': int(msg.sel.sport),
             'dport': int(msg.sel.dport), 'proto': int(msg.sel.proto), 'index': int(msg.policy.index)}
+
+
+class StubIkeSa:
+    """stands for ikesa.IkeSa in the bounded runs of the REAL IkeSaController.process_acquire / process_expire: it
+    records what the controller hands to the IKE_SA (whose own process_acquire / process_expire are verified
+    functions) and how a new IKE_SA is constructed"""
+    def __init__(self, is_initiator=None, peer_spi=None, configuration=None, my_addr=None, peer_addr=None, tag='new',
+                 child_spis=()):
+        self.tag, self.my_addr, self.peer_addr = tag, my_addr, peer_addr
+        self.ctor = {'is_initiator': is_initiator, 'peer_spi': None if peer_spi is None else bytes(peer_spi).hex(),
+                     'configuration': configuration}
+        self.child_sas = [types.SimpleNamespace(inbound_spi=a, outbound_spi=b) for a, b in child_spis]
+        self.calls = []
+
+    def process_acquire(self, tsi, tsr, index):
+        self.calls.append({'fn': 'process_acquire', 'tsi': ts_json(tsi), 'tsr': ts_json(tsr), 'index': index})
+        return 'request-of-' + self.tag
+
+    def process_expire(self, spi, hard):
+        self.calls.append({'fn': 'process_expire', 'spi': bytes(spi).hex(), 'hard': int(hard)})
+        return 'request-of-' + self.tag
+
+    def __str__(self):
+        return f'StubIkeSa({self.tag})'
+
+
+class StubConfiguration:
+    def get_ike_configuration(self, my_addr, peer_addr):
+        return ['ike-conf-for', str(my_addr), str(peer_addr)]
+
+
+def run_controller(fn_name, args, sas):
+    """one call of the real controller method on a controller whose table is `sas` (no __init__: no sockets)"""
+    ctl = object.__new__(ikesacontroller.IkeSaController)
+    ctl.ike_sas = list(sas)
+    ctl.configuration = StubConfiguration()
+    saved = ikesacontroller.IkeSa
+    ikesacontroller.IkeSa = StubIkeSa
+    out = {}
+    try:
+        signal.setitimer(signal.ITIMER_REAL, CALL_LIMIT)
+        try:
+            ret = getattr(ctl, fn_name)(*args)
+            out['returned'] = [None if x is None else str(x) for x in ret]
+        except Exception as e:
+            out['error'] = f'{type(e).__name__}: {e}'
+        finally:
+            signal.setitimer(signal.ITIMER_REAL, 0)
+    finally:
+        ikesacontroller.IkeSa = saved
+    out['table'] = [{'tag': x.tag, 'my_addr': str(x.my_addr), 'peer_addr': str(x.peer_addr), 'ctor': x.ctor,
+                     'calls': x.calls} for x in ctl.ike_sas]
+    return out
+
+
+def ctl_acquire(variant):
+    def run(header, msg, attributes, kv):
+        sas = [StubIkeSa(my_addr=ip_address('198.51.100.250'), peer_addr=ip_address('198.51.100.251'), tag='other')]
+        if variant:
+            sas.append(StubIkeSa(my_addr=ip_address(kv['saddr']), peer_addr=ip_address(kv['id.daddr']), tag='existing'))
+        return run_controller('process_acquire', (msg, attributes), sas)
+    return run
+
+
+def ctl_expire(variant):
+    def run(header, msg, attributes, kv):
+        spi = kv['state.id.spi'].to_bytes(4, 'big')
+        other = bytes(x ^ 0x5A for x in spi)
+        sas = [StubIkeSa(my_addr=ip_address('198.51.100.250'), peer_addr=ip_address('198.51.100.251'), tag='other',
+                         child_spis=[(other, b'\x0b\x0b\x0b\x0b')])]
+        if variant == 1:
+            sas.append(StubIkeSa(my_addr=ip_address(kv['state.saddr']), peer_addr=ip_address(kv['state.id.daddr']),
+                                 tag='owner', child_spis=[(b'\x0c\x0c\x0c\x0c', other), (spi, b'\x0d\x0d\x0d\x0d')]))
+        elif variant == 2:
+            sas.append(StubIkeSa(my_addr=ip_address(kv['state.saddr']), peer_addr=ip_address(kv['state.id.daddr']),
+                                 tag='owner', child_spis=[(b'\x0c\x0c\x0c\x0c', spi)]))
+        return run_controller('process_expire', (msg,), sas)
+    return run
 
 
 def sem_expire(header, msg, attributes):
@@ -519,7 +601,7 @@ def gen_events():
                         kv['mark.m'] = 0xFFFFFFFF
                     if i % 4 == 1:
                         kv['if_id'] = 42
-                    event('acquire', kv, sem_acquire)
+                    event('acquire', kv, sem_acquire, ctl_acquire(i % 2), i % 2)
                     i += 1
     j = 0
     for outer in OUTER:
@@ -542,7 +624,7 @@ def gen_events():
                     if j % 3 == 0:
                         kv['mark.v'] = 7
                         kv['mark.m'] = 0xFF
-                    event('expire', kv, sem_expire)
+                    event('expire', kv, sem_expire, ctl_expire(j % 3), j % 3)
                     j += 1
     # acks and error replies seen through parse_message (send_recv is exercised by the request calls)
     req = bytes.fromhex(REQUESTS[2]['sent'][0]) if len(REQUESTS) > 2 and REQUESTS[2]['sent'] else b'\x10\0\0\0\x10\0\x05\0\x01\x02\x03\x04\x05\x06\0\0'
